@@ -57,7 +57,13 @@ def _pre_k1(value: str, va: str, a_set: bool, x_set: bool) -> bool:
     if not (len(value) == case['len'] and _in_alphabet(value, K1_ALPHABET)
             and len(va) <= case['valen'] and _in_alphabet(va, K1_ALPHABET)):
         return False
-    return case.get('first') is None or value[0] in case['first']
+    prefix = case.get('prefix')
+    if prefix is None:
+        return True
+    for p in prefix:
+        if value.startswith(p):
+            return True
+    return False
 
 
 def k1_expand(value: str, va: str, a_set: bool, x_set: bool) -> bool:
@@ -88,6 +94,7 @@ K2_FORMS = (
     ('N = "${B}${A}"', ('set', 'N', '${B}${A}')),
     ('unset A', ('unset', 'A')),
     ('unset N', ('unset', 'N')),
+    ('N = "${A}A}"', ('set', 'N', '${A}A}')),  # a substituted text that completes a reference is not expanded again
 )
 K2_PHASES = ('setup', 'before-assert', 'assert', 'cleanup')
 
@@ -582,14 +589,26 @@ def obligations(tier: str) -> List[Ob]:
     # ---- K1
     lens = (0, 1, 2, 3, 4, 5) if tier == 'quick' else (0, 1, 2, 3, 4, 5, 6)
     for n in lens:
-        firsts = [None] if n < 5 else (['$', '{}', 'A_x'] if n == 5 else list(K1_ALPHABET))
-        for first in firsts:
-            obs.append(Ob(name='K1:expand:len%d%s' % (n, '' if first is None else ':first-' + first), fn='k1_expand',
-                          case=dict(len=n, valen=2, first=first), kernel='K1',
+        if n < 5:
+            prefixes = [None]
+        elif n == 5:
+            prefixes = [('${',), ('$$', '$}', '$A', '$_', '$x'), ('{', '}'), ('A', '_', 'x')]
+        else:
+            prefixes = [('${' + c,) for c in K1_ALPHABET] + [('$$', '$}', '$A', '$_', '$x')] + [(c,) for c in K1_ALPHABET[1:]]
+        for i, prefix in enumerate(prefixes):
+            obs.append(Ob(name='K1:expand:len%d%s' % (n, '' if prefix is None else ':part%d' % i), fn='k1_expand',
+                          case=dict(len=n, valen=2, prefix=prefix), kernel='K1',
                           bound='every value of exactly %d characters over {$ { } A _ x}%s; variable A unset or any text of <= 2 '
                                 'characters over the same alphabet, x unset or "X", Ax = "L"' % (
-                                    n, '' if first is None else ' with first character in {%s}' % ' '.join(first)),
+                                    n, '' if prefix is None else ' that starts with one of %s' % (list(prefix),)),
                           timeout=900, real=REAL_K1, entry='_expand_vars (reached from `env NAME = VALUE`, see K2 / K3)'))
+    for n in ((6,) if tier == 'quick' else (6, 7)):
+        obs.append(Ob(name='K1:expand:ref+tail:len%d' % n, fn='k1_expand', case=dict(len=n, valen=2, prefix=('${A}',)), kernel='K1',
+                      bound='every value "${A}" + %d characters over {$ { } A _ x}; A unset or any text of <= 2 characters over the same '
+                            'alphabet (a substituted text may complete a reference)' % (n - 4),
+                      timeout=900, real=REAL_K1, entry='_expand_vars'))
+    obs.append(Ob(name='K1:seeded-oracle-error-2', fn='k1_expand', case=dict(len=6, valen=2, prefix=('${A}',), oracle_bug=2),
+                  kernel='K1', bound='seeded: the substituted text is expanded again', timeout=300, expect=ob.REFUTE))
     for bug, what in ((1, 'unknown name kept verbatim'), (3, '${} taken as a reference')):
         obs.append(Ob(name='K1:seeded-oracle-error-%d' % bug, fn='k1_expand', case=dict(len=4, valen=1, oracle_bug=bug),
                       kernel='K1', bound='seeded: ' + what, timeout=300, expect=ob.REFUTE))
@@ -597,7 +616,7 @@ def obligations(tier: str) -> List[Ob]:
     singles = [(f,) for f in range(len(K2_FORMS))]
     # sequences follow from the single steps (every reachable pair of sets is among the symbolic initial states, and the two
     # sets are checked not to be the same object); a few pairs are run all the same
-    pairs = [(1, 3), (4, 1)] if tier == 'quick' else [(0, 1), (1, 1), (4, 1), (1, 3), (3, 2), (2, 4), (4, 0), (5, 3)]
+    pairs = [(4, 1)] if tier == 'quick' else [(0, 1), (1, 1), (4, 1), (1, 3), (3, 2), (2, 4), (4, 0), (5, 3)]
     for forms in singles + pairs:
         phases = (('setup', 'before-assert') if tier == 'quick' else K2_PHASES) if len(forms) == 1 else ('setup',)
         obs.append(Ob(name='K2:env:' + _k2_form_name(forms), fn='k2_apply', case=dict(forms=forms, phases=phases), kernel='K2',
@@ -649,10 +668,11 @@ def obligations(tier: str) -> List[Ob]:
                     obs.append(k3('%s:f%d-%d' % (name, lo, hi - 1), dict(k=k, phases=phases, ranges=((lo, hi), (0, NBASE), (0, NBASE))),
                                   base_text + ' (first form: index %d..%d)' % (lo, hi - 1), timeout=2400))
     # the value of the variable comes from a program
-    kprog = 1 if tier == 'quick' else 2
-    for k in range(1, kprog + 1):
+    for k in (1, 2):
         for phases in itertools.combinations_with_replacement(range(len(PHASES)), k):
             for pos in range(k):
+                if tier == 'quick' and k == 2 and (phases, pos) not in (((0, 0), 1), ((0, 1), 1)):
+                    continue
                 ranges = tuple((NBASE, NPROG) if i == pos else (0, NBASE) for i in range(k))
                 obs.append(k3('K3:value-program:k%d:%s:pos%d' % (k, '+'.join(PHASES[p] for p in phases), pos),
                               dict(k=k, phases=phases, ranges=ranges), prog_text))
@@ -704,22 +724,25 @@ def obligations(tier: str) -> List[Ob]:
 
 
 def selftest(tier) -> int:
-    """Concrete comparison of the reference expansion with the real one, and of the recording stand-in's
-    reading of `env=None` / `cwd` with a REAL child process."""
+    """Concrete comparison of the reference expansion with an independent definition, and of the recording
+    stand-in's reading of `env=None` / `cwd` with a REAL child process."""
     import itertools
     import os
     import subprocess
     import sys
-    from exactly_lib.impls.instructions.multi_phase.environ import impl
+    import re
     n = 0
     alphabet = '${}A_x1'
     envs = ({}, {'A': 'va'}, {'A': '${x}', 'x': 'X'}, {'A': '${', 'x': 'X', 'Ax': 'L', '1': 'one'})
+    # the reference expansion against the manual's definition written as a regular-expression substitution (not exactly_lib code:
+    # a defect in exactly_lib must show as a VIOLATION of an obligation, not as a failing self-test)
+    documented = re.compile(r'\$\{([a-zA-Z0-9_]+)\}')
     for length in range(0, 6 if tier == 'quick' else 7):
         for t in itertools.product(alphabet, repeat=length):
             v = ''.join(t)
             for e in envs:
-                if impl._expand_vars(v, dict(e)) != ref.expand(v, dict(e)):
-                    raise AssertionError('reference expansion differs from _expand_vars on %r %r' % (v, e))
+                if documented.sub(lambda m: e.get(m.group(1), ''), v) != ref.expand(v, dict(e)):
+                    raise AssertionError('reference expansion differs from the documented substitution on %r %r' % (v, e))
                 n += 1
     # the assumed contract of subprocess.call: env=None => the child inherits os.environ, no cwd= => it starts in os.getcwd();
     # a child that changes its directory does not change ours
